@@ -18,6 +18,7 @@ from harness.common.rng import Rng
 from harness.common import sim
 from harness.common import usbref as U
 from harness.translate import affine
+from harness.props import c30_accept
 
 PROP = "C30"
 LEAN_MODULES = ["LunaVerif.Core.XorAlg", "LunaVerif.Props.C30"]
@@ -38,7 +39,15 @@ RULE = ("cases = (module, initial_value) x stimulus: tok = random token packets 
         "(correct / one-bit-off / random CRC5 fields, one row per token); d16/h16/p32 = cycle-level runs of "
         "USBDataPacketCRC / HeaderPacketCRC / DataPacketPayloadCRC with packet-shaped traffic (clear, words, tail) and "
         "with unconstrained strobe mixes (clear+advance, rx+tx, several tail strobes at once); lc5 = all 2^11 inputs "
-        "of compute_usb_crc5; net = the repository's equation builders evaluated on zero/unit/random vectors")
+        "of compute_usb_crc5; net = the repository's equation builders evaluated on zero/unit/random vectors; "
+        "acceptance by the consumers (monitor-only, harness/props/c30_accept.py, appended last from an rng fork), one "
+        "instance per case fed with 14..32 well-formed packets, each intact or with one kind of corruption, verdict "
+        "recomputed from the words sent with the reference CRCs: a16 = USBDataPacketReceiver standalone / wired to the "
+        "shared CRC unit at HS / FS (CRC16 correct / one bit off / random / payload bit flipped -> packet_complete vs "
+        "crc_mismatch); alc = LinkCommandDetector (CRC-5 field correct / one bit off / random / protected bit flipped, "
+        "both copies alike); ahp = RawHeaderPacketReceiver with the expected sequence number (CRC-5 field, link control "
+        "word bit, CRC-16 field, DW0..2 bit, both); adp = DataPacketReceiver (the same header corruptions, CRC-32 field, "
+        "payload bit; payloads of 0..24 bytes, every tail length; invalid cycles in between)")
 ASSUMPTIONS = [
     "initial_value parameters at their defaults (0xFFFF / 0xFFFFFFFF) in the theorems; the co-simulation also varies them",
     "USBDataPacketCRC with exactly one attached DataCRCInterface (the module ORs the start strobes of all interfaces)",
@@ -100,6 +109,8 @@ def gen_cases(tier, rng):
     for name in ["usb2Crc5", "usb3Crc5"] + list(NETSPEC):
         for k in range(n if tier != "thorough" else 3):
             out.append({"kind": "net", "net": name, "seed": rng.u64(), "k": k})
+    # appended last, from a fork (the seeds of the cases above do not move): acceptance by the consumers of each CRC
+    out += c30_accept.gen_cases(tier, rng.fork("accept"))
     return out
 
 
@@ -348,6 +359,7 @@ def run_net(desc):
 
 
 RUNNERS = {"tok": run_tok, "d16": run_d16, "h16": run_h16, "p32": run_p32, "lc5": run_lc5, "net": run_net}
+RUNNERS.update(c30_accept.RUNNERS)
 
 
 def run_case(desc):
